@@ -395,6 +395,14 @@ class Body:
                 elif rv["k"] == "un" and rv["op"] == "Not":
                     a = ev_op(env, rv["a"])
                     val = (not a) if isinstance(a, bool) else None
+                elif rv["k"] == "bin" and rv["op"] in ("BitOr", "BitAnd"):
+                    a, b2 = ev_op(env, rv["a"]), ev_op(env, rv["b"])
+                    if rv["op"] == "BitOr" and (a is True or b2 is True):
+                        val = True
+                    elif rv["op"] == "BitAnd" and (a is False or b2 is False):
+                        val = False
+                    elif isinstance(a, bool) and isinstance(b2, bool):
+                        val = (a or b2) if rv["op"] == "BitOr" else (a and b2)
                 elif rv["k"] == "agg" and rv.get("ak") == "adt" and rv.get("variant") is not None:
                     val = ("V", rv["variant"], tuple(ev_op(env, o) for o in rv["ops"]))
                 elif rv["k"] == "agg" and rv.get("ak") == "tuple":
